@@ -3,7 +3,7 @@
    types; andb/orb inlined) and ExtrOcamlString (ascii => char, string => char list). nat, N, Z, positive
    stay the extracted inductive datatypes. *)
 From Coq Require Import Extraction ExtrOcamlBasic ExtrOcamlString.
-From GV Require Import Base.Util Spec.Smiles Spec.Chem Spec.Iso Model.PyLite Gen.Converter Gen.Tables Model.Library Model.Gate Spec.Graft Model.Merger Spec.Ebnf Gen.Grammar Spec.Reader Model.Edge Spec.Modify Spec.Skeleton Model.Walker Model.Splice.
+From GV Require Import Base.Util Spec.Smiles Spec.Chem Spec.Iso Model.PyLite Gen.Converter Gen.Tables Model.Library Model.Gate Spec.Graft Model.Merger Spec.Ebnf Gen.Grammar Spec.Reader Model.Edge Spec.Modify Spec.Skeleton Model.Walker Model.Splice Model.Memo.
 Extraction Language OCaml.
 Extraction "../_build/extracted/gv.ml"
   Util.s2l Util.nat2str Util.str2nat
@@ -16,7 +16,7 @@ Extraction "../_build/extracted/gv.ml"
   Gate.gate Gate.get_smiles_model
   Graft.denotes Graft.strip_tree Graft.glycan_mol Graft.backbone Graft.residue_frame
   Merger.relabel Merger.merge_children Merger.sanitize Tables.dummy_atoms
-  Ebnf.accepts Ebnf.lex Grammar.token_table Grammar.rules Grammar.start_rule
+  Ebnf.accepts Memo.accepts_m Ebnf.lex Grammar.token_table Grammar.rules Grammar.start_rule
   Reader.read Reader.render Reader.size
   Edge.add_edge Edge.code_ketose_test Edge.spec_ketose_test
   Modify.modify_all Modify.fragment_kind
